@@ -161,6 +161,11 @@ func init() {
 				mk("{% for i := 0; i < 3; i++ %}"+d(kind)+"{% exit %}{% endfor %}"+d(kind)),
 				mk(d(kind)+"{% if si == 1 %}{% exit %}{% endif %}"+d(kind)),
 				mk(d(kind)+"{% include missing %}"+d(kind)),
+				// a modifier that FAILS in a print tag is swallowed there (nothing is printed, the render goes on and
+				// succeeds) but leaves its error in ctx.Err: the deferred functions still run at the end
+				mk(d(kind)+"{%= si|default() %}tail"),
+				mk(d(kind)+"{%= si|vfail() %}"),
+				mk("{%= nope|default() %}"+d(kind)+"{% if si == 1 %}{%= si|vfail() %}{% endif %}"),
 			)
 		}
 		// renders of many KiB (a context that grew large is still reset and its objects returned), through both reset
